@@ -72,6 +72,14 @@ func payload(tok string, seed int64, idx int, g W2Cfg) []byte {
 		// incompressible head and a long, extremely compressible tail handed over in ONE call: the
 		// chunk that follows the compressed-size limit starts with look-ahead already buffered
 		return append(MakeData("random", 70000, s), make([]byte, 5<<20)...)
+	case "WLad32M":
+		return MakeData("ladder", 1<<25+4096, s)
+	case "WLad16M":
+		return MakeData("ladder", 1<<24+4096, s)
+	case "WLad64Kt":
+		return MakeData("laddertext", 70000, s)
+	case "WMaxRuns":
+		return MakeData("maxlenruns", 30000, s)
 	case "W80Krr":
 		return MakeData("randomrepeats", 80000, s)
 	case "W300Kr":
